@@ -43,7 +43,8 @@ def reference(spec):
     """sequential one-process evaluation with the binding the job states (even edges positional, odd keyword)"""
     val = {}
     for k, t in enumerate(spec["tasks"]):
-        ps, kw = {}, {}
+        ps = {int(p): v for p, v in t.get("static_ps", {}).items()}      # statics first, upstream values override
+        kw = dict(t.get("static_kw", {}))
         for i, (src, o) in enumerate(t["ins"]):
             if i % 2 == 0:
                 ps[i // 2] = val[(src, o)]
